@@ -5,8 +5,30 @@ LEVEL = "model_checking"
 SRC = "engines/opx/sc_c06.cpp"
 
 
+LONG_SRC = ["engines/seqx/c03_long.cpp"]
+
+
+def long_builds():
+    return [vf.build("c03_long", LONG_SRC, ["-O1", "-g"]), vf.build("c03_long_bounded", LONG_SRC, ["-O1", "-g", "-DVF_BOUNDED=1"])]
+
+
+def long_jobs(exes, tier):
+    """deterministic histories: 40 statements of a thread that has exited, then 300 of the main thread, nothing polled in
+    between or polled every 3 statements; the transit limits make every read pass end early, so the backend is in batch mode
+    with one thread's backlog still in its queue while newer statements of the other thread are cached"""
+    js = []
+    for exe in exes:
+        for tbuf, soft, hard in ((1, 1, 1), (2, 2, 2), (4, 4, 4), (2, 1, 8)) if tier == "quick" else ((1, 1, 1), (1, 1, 2), (2, 2, 2), (4, 4, 4), (2, 1, 8), (8, 8, 8), (4, 2, 16)):
+            for cadence in (0, 3):
+                for sizes in (0, 2):
+                    js.append((exe, ["--tbuf", tbuf, "--soft", soft, "--hard", hard, "--cadence", cadence, "--polls", 1, "--sizes", sizes,
+                                     "--dead", 1, "--n", 300], 300))
+    return js
+
+
 def prebuild():
     opxlib.build("sc_c06", SRC)
+    long_builds()
 
 
 def jobs(tier):
@@ -50,10 +72,19 @@ def run(ctx):
     ctx.set_deadline(170 if ctx.tier == "quick" else 1800)
     exe = opxlib.build("sc_c06", SRC)
     opxlib.run_jobs(ctx, exe, jobs(ctx.tier), "sc_c06(c05)")
+    # long deterministic histories on an unbounded and on a bounded blocking queue: the statements of an exited thread (all
+    # enqueued, with earlier timestamps, before the main thread's first) come out before the main thread's, whatever the limits
+    for rr in vf.run_many(long_jobs(long_builds(), ctx.tier)):
+        ctx.absorb(rr, "c03_long(order)")
+    ctx.rule += ("; deterministic 340-statement histories (40 of an exited thread, then 300 of the main thread) on an unbounded and on a "
+                 "bounded blocking queue x transit capacity / soft / hard limit x poll cadence: global order at the sink")
     # premise statistics from the distinct outcome keys are not available per execution; the harness reports them as events
     ctx.assumptions.append("executions in which some statement was enqueued later than the grace period after its timestamp are explored but not judged for order (premise false)")
     ctx.assumptions.append("system clock virtualised; TSC not controllable; user-clock loggers are outside the claim (grace check disabled for them by design)")
 
 
 def replay(rep, extra):
+    if "scenario" not in rep["record"]:
+        print("deterministic long history (%s): re-run ./check C05" % rep["record"].get("case"))
+        return 2
     return opxlib.replay("C05", opxlib.build("sc_c06", SRC), rep)
